@@ -394,6 +394,44 @@ impl<'ast> Visit<'ast> for LoopFinder {
                 }
             }
         }
+        // D49: X.iter().any(|P| C)
+        if e.method == "any" && e.args.len() == 1 {
+            if let (syn::Expr::Closure(c), syn::Expr::MethodCall(it)) = (&e.args[0], &*e.receiver) {
+                if it.method == "iter" && it.args.is_empty() && c.inputs.len() == 1 && matches!(c.inputs[0], syn::Pat::Ident(_)) {
+                    let mut ef = EscapeFinder::default();
+                    ef.visit_expr(&c.body);
+                    if ef.escapes == 0 {
+                        let call = e.span().byte_range();
+                        let recv = it.receiver.span().byte_range();
+                        let pat = c.inputs[0].span().byte_range();
+                        let body = c.body.span().byte_range();
+                        self.vd.push(format!(
+                            "{{\"rule\":\"D49\",\"call\":[{},{}],\"recv\":[{},{}],\"pat\":[{},{}],\"body\":[{},{}]}}",
+                            call.start, call.end, recv.start, recv.end, pat.start, pat.end, body.start, body.end
+                        ));
+                    }
+                }
+            }
+        }
+        // D50: X.into_iter().map(|P| E)   (handed on as an `impl IntoIterator` argument)
+        if e.method == "map" && e.args.len() == 1 {
+            if let (syn::Expr::Closure(c), syn::Expr::MethodCall(it)) = (&e.args[0], &*e.receiver) {
+                if it.method == "into_iter" && it.args.is_empty() && c.inputs.len() == 1 && matches!(c.inputs[0], syn::Pat::Ident(_)) {
+                    let mut ef = EscapeFinder::default();
+                    ef.visit_expr(&c.body);
+                    if ef.escapes == 0 {
+                        let call = e.span().byte_range();
+                        let recv = it.receiver.span().byte_range();
+                        let pat = c.inputs[0].span().byte_range();
+                        let body = c.body.span().byte_range();
+                        self.vd.push(format!(
+                            "{{\"rule\":\"D50\",\"call\":[{},{}],\"recv\":[{},{}],\"pat\":[{},{}],\"body\":[{},{}]}}",
+                            call.start, call.end, recv.start, recv.end, pat.start, pat.end, body.start, body.end
+                        ));
+                    }
+                }
+            }
+        }
         // D47: X.iter_mut().find(|P| C)
         if e.method == "find" && e.args.len() == 1 {
             if let (syn::Expr::Closure(c), syn::Expr::MethodCall(it)) = (&e.args[0], &*e.receiver) {
